@@ -499,7 +499,7 @@ def entity_counts(sit: dict, world: dict) -> dict:
 def gen_value(rng: random.Random, var: dict, world: dict):
     t = var["type"]
     if t == "float":
-        return pick(rng, [0.0, 1.0, 2.5, 10.0, 100.0, 1234.5, -3.0, 12.0, 0.25])
+        return pick(rng, [0.0, 1.0, 2.5, 10.0, 100.0, 1234.5, -3.0, 12.0, 0.25, 250000.0, 999999.0])
     if t == "int":
         return pick(rng, [0, 1, 2, 12, 24, 120, 365, -6, 1200])
     if t == "bool":
